@@ -832,7 +832,10 @@ class IndexLevelGO(IndexLevel):
             if not issubclass(type_self, type_other):
                 raise RuntimeError(f'level for extension does not have corresponding types: {type_self}, {type_other}')
 
-        # this will raise for duplicates
+        if self.targets is None:
+            raise RuntimeError('found IndexLevel with None as targets')
+
+        # this will raise for duplicates, before any label is added
         self.index.extend(level.index.values)
 
         def target_gen() -> tp.Iterator[GetItemKeyType]:
